@@ -33,6 +33,9 @@ type c03Case struct {
 	ACSEmpty  bool   `json:"acs_empty,omitempty"` // the stored consumer URL is empty (response returned in the body)
 	// history: a second stored request for another user shape is called back first on the same provider
 	Earlier string `json:"earlier,omitempty"`
+	// EarlierFault "op/kind": the earlier callback (user with every standard and a custom attribute) hits this one-shot storage
+	// failure, so it is refused; what it leaves behind in the IdP must not show in the judged callback
+	EarlierFault string `json:"earlier_fault,omitempty"`
 	// Env: environment deviation at the callback — "entity-lookup-fails" (GetEntityIDByAppID errors while the stored request
 	// records an alias spelling of the SP's entity ID as its issuer), "application-unregistered" (the application has no entity
 	// any more), "application-reassigned" (the application now belongs to another entity ID)
@@ -60,6 +63,10 @@ var c03UserShapes = map[string]func(p *cbP){
 	},
 }
 
+var c03EarlierFaults = []string{"GetResponseSigningKey/" + world.FaultError, "GetResponseSigningKey/" + world.FaultNoKey, "GetResponseSigningKey/" + world.FaultNilRecord, "GetResponseSigningKey/" + world.FaultCtxCanceled,
+	"SetUserinfoWithUserID/" + world.FaultError, "SetUserinfoWithUserID/" + world.FaultPartial, "SetUserinfoWithUserID/" + world.FaultCtxDeadline,
+	"GetEntityIDByAppID/" + world.FaultError, "AuthRequestByID/" + world.FaultError, "GetEntityByID/" + world.FaultError}
+
 func (c c03Case) params() cbP {
 	p := cbP{Binding: c.Binding, IssuerCfg: c.IssuerCfg, Host: c.Host, TimeFmt: c.TimeFmt, MetaEp: c.MetaEp, SigAlg: c.SigAlg}
 	c03UserShapes[c.UserShape](&p)
@@ -86,6 +93,7 @@ func (c c03Case) labels() []string {
 	add("metadata-endpoint", c.MetaEp)
 	add("user", c.UserShape)
 	add("earlier-callback-for", c.Earlier)
+	add("earlier-callback-hits-storage-failure", c.EarlierFault)
 	add("env", c.Env)
 	if c.RealClock {
 		l = append(l, "real-clock")
@@ -115,7 +123,7 @@ func c03Judge(c c03Case, checkIDs bool) c03Verdict {
 	}
 	p := c.params()
 	w, t := cbBuild(p)
-	if c.Earlier != "" {
+	if c.Earlier != "" || c.EarlierFault != "" {
 		// another session (user bob-like record built from the 'earlier' shape) is called back first
 		ep := cbP{Binding: c.Binding}
 		c03UserShapes[c.Earlier](&ep)
@@ -126,6 +134,10 @@ func c03Judge(c c03Case, checkIDs bool) c03Verdict {
 		w.Store.AddUser(eu)
 		r := w.Store.Inject(world.AuthReq{AppID: "app-a", ACS: "https://sp-a.example/acs/earlier", Binding: t.Binding, RequestID: "_earlier-req", RelayState: "earlier-relay"})
 		w.Store.Complete(r.ID, "u-earlier")
+		if c.EarlierFault != "" {
+			of := strings.SplitN(c.EarlierFault, "/", 2)
+			w.Store.FaultNext(of[0], 1, of[1])
+		}
 		callbackReq(w, t.Host, r.ID)
 	}
 	mustFail := false
@@ -268,7 +280,7 @@ func init() { Registry["C03"] = runC03 }
 func runC03(ctx Ctx) int {
 	world.PinClock()
 	run := ev.NewRun("C03")
-	run.Rule = "stored-request fields (request ID, consumer URL, RelayState, audience entity) and user-record fields over the 16-symbol S_xml alphabet with <= 1 (quick) / <= 2 (thorough) fields off default, x 13 user-record shapes (each standard attribute unset, 0-2 custom attributes with 0-3 values, FriendlyName/NameFormat set/unset, name clashes) x {POST, Redirect} x 7 configurations (static / static with path / host-derived x 2 hosts / custom time format / custom metadata endpoint / rsa-sha1); pinned clock (exact instants) plus one real-clock pass; plus histories of two callbacks for different users on one provider; plus environment deviations at the callback (entity lookup fails while the stored request records an alias of the entity ID; application unregistered; application reassigned to another entity). The reply is decoded by x/net/html / raw query splitting + the harness XML tree and compared field by field with a reference built from the records the storage served"
+	run.Rule = "stored-request fields (request ID, consumer URL, RelayState, audience entity) and user-record fields over the 16-symbol S_xml alphabet with <= 1 (quick) / <= 2 (thorough) fields off default, x 13 user-record shapes (each standard attribute unset, 0-2 custom attributes with 0-3 values, FriendlyName/NameFormat set/unset, name clashes) x {POST, Redirect} x 7 configurations (static / static with path / host-derived x 2 hosts / custom time format / custom metadata endpoint / rsa-sha1); pinned clock (exact instants) plus one real-clock pass; plus histories of two callbacks for different users on one provider, the earlier one healthy or refused because one storage operation failed (10 operation/failure kinds incl. a user-info lookup that fails after some setters ran); plus environment deviations at the callback (entity lookup fails while the stored request records an alias of the entity ID; application unregistered; application reassigned to another entity). The reply is decoded by x/net/html / raw query splitting + the harness XML tree and compared field by field with a reference built from the records the storage served"
 	run.Assume = []string{"order between attributes is not claimed (custom attributes live in a Go map); order within a value list is", "the lifetime is the library default of 5 minutes (not configurable through an exported option)"}
 	if ctx.Replay != "" {
 		var c c03Case
@@ -326,6 +338,12 @@ func runC03(ctx Ctx) int {
 			cases = append(cases, c03Case{Binding: b, Earlier: e, ACSEmpty: true})
 		}
 		cases = append(cases, c03Case{Binding: b, ACSEmpty: true})
+		// histories: the earlier callback is refused because one storage operation failed (10 failures x 13 user shapes)
+		for _, ef := range c03EarlierFaults {
+			for _, us := range shapes {
+				cases = append(cases, c03Case{Binding: b, UserShape: us, EarlierFault: ef})
+			}
+		}
 		for _, env := range []string{"entity-lookup-fails", "application-unregistered", "application-reassigned"} {
 			for _, cfg := range configs {
 				c := cfg
